@@ -635,6 +635,17 @@ func (s *SwapService) OnSwapInRequestReceived(swapId *SwapId, peerId string, mes
 		return err
 	}
 
+	if _, err := s.swapServices.swapStore.GetData(swapId.String()); !errors.Is(err, ErrDataNotAvailable) {
+		// The id belongs to a swap we already know (active, finished or not yet
+		// recovered): never let a request replace its record, keys or progress.
+		msgBytes, msgType, err := MarshalPeerswapMessage(&CancelMessage{
+			SwapId:  swapId,
+			Message: "swap id already in use",
+		})
+		s.swapServices.messenger.SendMessage(peerId, msgBytes, msgType)
+		return err
+	}
+
 	swap := newSwapInReceiverFSM(swapId, s.swapServices, peerId)
 
 	err = s.lockSwap(swap.SwapId.String(), message.Scid, swap)
@@ -706,6 +717,17 @@ func (s *SwapService) OnSwapOutRequestReceived(swapId *SwapId, peerId string, me
 		msgBytes, msgType, err := MarshalPeerswapMessage(&CancelMessage{
 			SwapId:  swapId,
 			Message: msg,
+		})
+		s.swapServices.messenger.SendMessage(peerId, msgBytes, msgType)
+		return err
+	}
+
+	if _, err := s.swapServices.swapStore.GetData(swapId.String()); !errors.Is(err, ErrDataNotAvailable) {
+		// The id belongs to a swap we already know (active, finished or not yet
+		// recovered): never let a request replace its record, keys or progress.
+		msgBytes, msgType, err := MarshalPeerswapMessage(&CancelMessage{
+			SwapId:  swapId,
+			Message: "swap id already in use",
 		})
 		s.swapServices.messenger.SendMessage(peerId, msgBytes, msgType)
 		return err
@@ -974,6 +996,10 @@ func (s *SwapService) lockSwap(swapId, channelId string, fsm *SwapStateMachine) 
 		if swap.Data.GetScid() == channelId {
 			return ActiveSwapError{channelId: channelId, swapId: id}
 		}
+	}
+
+	if _, ok := s.activeSwaps[swapId]; ok {
+		return fmt.Errorf("swap id %s is already in use", swapId)
 	}
 
 	// Add active swap
